@@ -118,6 +118,21 @@ var reEndian = regexp.MustCompile(`^\(encoding/binary\.(big|little)Endian\)\.Uin
 
 func (p *termParser) primary() (TVal, error) {
 	r := p.rest()
+	if strings.HasPrefix(r, "csproto.SizeOfVarint(") {
+		p.pos += len("csproto.SizeOfVarint(")
+		v, err := p.expr()
+		if err != nil {
+			return v, err
+		}
+		if !strings.HasPrefix(p.rest(), ")") {
+			return v, evalErr{"expected ) after SizeOfVarint argument"}
+		}
+		p.pos++
+		if v.K != "u" {
+			return v, evalErr{"SizeOfVarint of non-integer"}
+		}
+		return U(uint64(varintSize(v.U))), nil
+	}
 	if m := reEndian.FindStringSubmatch(r); m != nil {
 		p.pos += len(m[0])
 		v, err := p.expr()
@@ -232,6 +247,33 @@ func (p *termParser) primary() (TVal, error) {
 	case strings.HasPrefix(r, "nil"):
 		p.pos += 3
 		return TVal{K: "b", B: nil}, nil
+	case strings.HasPrefix(r, "len(makeslice("), strings.HasPrefix(r, "cap(makeslice("):
+		// length/capacity of a freshly made slice: its arguments (no allocation)
+		p.pos += len("len(makeslice(")
+		l, err := p.expr()
+		if err != nil {
+			return l, err
+		}
+		if !strings.HasPrefix(p.rest(), ",") {
+			return l, evalErr{"bad makeslice term"}
+		}
+		p.pos++
+		cp, err := p.expr()
+		if err != nil {
+			return cp, err
+		}
+		if !strings.HasPrefix(p.rest(), ")@") {
+			return l, evalErr{"bad makeslice term"}
+		}
+		p.pos += 2
+		for p.pos < len(p.s) && p.s[p.pos] != ')' {
+			p.pos++
+		}
+		p.pos++
+		if r[0] == 'c' {
+			return cp, nil
+		}
+		return l, nil
 	case strings.HasPrefix(r, "len("), strings.HasPrefix(r, "cap("):
 		p.pos += 4
 		v, err := p.expr()
@@ -653,4 +695,13 @@ func (p *fparser) expr() (float64, error) {
 		n = 50
 	}
 	return 0, evalErr{"unbound term " + r[:n]}
+}
+
+func varintSize(v uint64) int {
+	n := 1
+	for v >= 0x80 {
+		v >>= 7
+		n++
+	}
+	return n
 }
